@@ -94,28 +94,33 @@ impl MuxStream {
     #[tracing::instrument(skip_all, level = "trace", fields(flow_id = %format_args!("{:08x}", self.flow_id)))]
     #[inline]
     pub fn poll_for_push(&mut self, cx: &mut Context<'_>) -> Poll<usize> {
-        let Some(next) = ready!(self.rx_frame_rx.poll_recv(cx)) else {
-            trace!("stream has been closed");
-            // See `tokio::sync::mpsc`#clean-shutdown
-            self.rx_frame_rx.close();
-            // There should be no code path sending more frames after an EOF
-            // If this assertion fails, some code path is sending frames after EOF
-            // and thus causing loss of data.
-            // However, this is not an inconsistent state so we should not
-            // panic a production setup.
-            debug_assert!(self.rx_frame_rx.try_recv().is_err());
-            return Poll::Ready(0);
-        };
-        // Putting no data into the buffer is EOF, and other code should
-        // already ensure that such frames are filtered out.
-        debug_assert!(!next.is_empty());
-        assert!(
-            self.buf.is_empty(),
-            "`poll_fill_buf_inner` should not be called unless the buffer is empty"
-        );
-        self.buf = next;
-        self.increment_psh_recvd_since();
-        Poll::Ready(self.buf.len())
+        loop {
+            let Some(next) = ready!(self.rx_frame_rx.poll_recv(cx)) else {
+                trace!("stream has been closed");
+                // See `tokio::sync::mpsc`#clean-shutdown
+                self.rx_frame_rx.close();
+                // There should be no code path sending more frames after an EOF
+                // If this assertion fails, some code path is sending frames after EOF
+                // and thus causing loss of data.
+                // However, this is not an inconsistent state so we should not
+                // panic a production setup.
+                debug_assert!(self.rx_frame_rx.try_recv().is_err());
+                return Poll::Ready(0);
+            };
+            assert!(
+                self.buf.is_empty(),
+                "`poll_fill_buf_inner` should not be called unless the buffer is empty"
+            );
+            // Every `Push` frame occupies one unit of the window, even an empty one
+            self.increment_psh_recvd_since();
+            if next.is_empty() {
+                // The peer made a zero-length write. Putting no data into the
+                // buffer would look like EOF to our reader, so skip the frame.
+                continue;
+            }
+            self.buf = next;
+            return Poll::Ready(self.buf.len());
+        }
     }
 
     /// Get a reference to the internal buffer.
@@ -261,9 +266,8 @@ mod tokio_io_impls {
 
     impl AsyncRead for MuxStream {
         /// Read data from the stream.
-        /// There are two cases where this function gives EOF:
-        /// 1. One `Frame` contains an empty payload.
-        /// 2. `Sink`'s sender is dropped.
+        /// This function gives EOF when `Sink`'s sender is dropped.
+        /// A `Frame` with an empty payload is skipped.
         #[tracing::instrument(skip_all, level = "trace")]
         #[inline]
         fn poll_read(
